@@ -18,7 +18,7 @@ RULE = ('for every public entry point of mp with a frozen driver (tables/entrypo
         '(file, function line, bytecode offset) of all active mpmath frames; precision write primitives are atomic) from start '
         'precisions 53 and 71; (iii) the user callback raising at its k-th invocation for every k; (iv) the same entry point called '
         'normally after an aborted call; (v) workprec/workdps/extraprec/extradps as context managers and decorators, nested to depth 2, '
-        'with normal and raising bodies; (vi) dps/prec setter laws for every n <= 5000.  Invariant: (mp.prec, mp.dps, rounding, iv.prec, iv.dps) '
+        'with normal and raising bodies; (vi) dps/prec setter laws for every n <= 5000; (vii) 53 call templates (hypergeometric, Bessel, error/exponential integrals, elementary, ...) at extreme argument magnitudes 2^p, -2^(p+7), +-1e20, 1e-30, 2^-(p+9), 1e20j, 3+2^(p+3)j, from precisions 30/53/61/100, returning or raising.  Invariant: (mp.prec, mp.dps, rounding, iv.prec, iv.dps) '
         'after == before.  non-trivial = the call changed the precision at some point during the fault-free run (observed by a trace on '
         '_set_prec/_set_dps) or is a manager/setter case; classes are distinct by construction (dict of signatures)')
 ASSUMPTIONS = ['fault model: an exception may surface at any call event of mpmath code or in a user callback, not inside the precision write primitives themselves',
@@ -72,6 +72,7 @@ def tasks(tier, seed):
     out.append(('managers', th))
     out.append(('setters', th))
     out.append(('objects', th))
+    out += [('extreme', c, 8) for c in range(8)]
     return out
 
 
@@ -210,6 +211,55 @@ def t_entries(task):
             check_entry(acc, 'mp', name, e['args'], th)
     if names:
         acc.sample(['mp.' + names[0], table[names[0]][0]['args'], 'start precisions %s; fault classes by stack signature' % START_PRECS[:6]])
+    return acc
+
+
+EXTREME_TEMPLATES = [
+    ('hyp1f1', lambda z: (1, 2, z)), ('hyp1f1', lambda z: (1.5, 2.25, z)), ('hyp1f1', lambda z: (-2, 0.5, z)), ('hyp0f1', lambda z: (2.5, z)), ('hyp2f1', lambda z: (1, 2, 3.5, z)),
+    ('hyp1f2', lambda z: (1, 2, 3, z)), ('hyp2f0', lambda z: (1, 2, z)), ('hyp2f2', lambda z: (1, 2, 3, 4.5, z)), ('hyperu', lambda z: (1, 2.5, z)), ('hyper', lambda z: ([1], [2], z)),
+    ('hyper', lambda z: ([1, 2], [3.5], z)), ('besselj', lambda z: (1.5, z)), ('bessely', lambda z: (0, z)), ('besseli', lambda z: (2, z)), ('besselk', lambda z: (0.5, z)),
+    ('hankel1', lambda z: (1, z)), ('struveh', lambda z: (1, z)), ('airyai', lambda z: (z,)), ('airybi', lambda z: (z,)), ('erf', lambda z: (z,)), ('erfc', lambda z: (z,)), ('erfi', lambda z: (z,)),
+    ('ei', lambda z: (z,)), ('e1', lambda z: (z,)), ('expint', lambda z: (2.5, z)), ('gammainc', lambda z: (2.5, z)), ('gammainc', lambda z: (0.5, 0, z)), ('ci', lambda z: (z,)), ('si', lambda z: (z,)),
+    ('fresnels', lambda z: (z,)), ('zeta', lambda z: (z,)), ('polylog', lambda z: (2, z)), ('lambertw', lambda z: (z,)), ('gamma', lambda z: (z,)), ('loggamma', lambda z: (z,)), ('digamma', lambda z: (z,)),
+    ('sin', lambda z: (z,)), ('cospi', lambda z: (z,)), ('exp', lambda z: (z,)), ('log', lambda z: (z,)), ('atan', lambda z: (z,)), ('sinc', lambda z: (z,)), ('ellipk', lambda z: (z,)), ('ellipe', lambda z: (z,)),
+    ('agm', lambda z: (1, z)), ('jtheta', lambda z: (3, z, 0.25)), ('legendre', lambda z: (2.5, z)), ('pcfd', lambda z: (1.5, z)), ('whitm', lambda z: (1, 0.5, z)), ('coulombf', lambda z: (1, 2, z)),
+    ('lerchphi', lambda z: (z, 2, 1.5)), ('besseljzero', lambda z: (1, 3)), ('nsum', lambda z: (lambda k: z ** (-abs(k)) if z else 0, [1, 5])),
+]
+
+
+def t_extreme(task):
+    """normal/failing returns at extreme argument magnitudes (precision adjustments that depend on mag(z)): 2^prec, 2^(prec+7), 1e20, tiny, huge imaginary"""
+    _, chunk, nch = task
+    from mpmath import mp
+    acc = Acc()
+    try:
+        for ti, (name, mk_args) in enumerate(EXTREME_TEMPLATES):
+            if ti % nch != chunk:
+                continue
+            f = getattr(mp, name)
+            for p in (53, 61, 100, 30):
+                zs = [('2^p', lambda: mp.ldexp(1, p)), ('-2^(p+7)', lambda: -mp.ldexp(1, p + 7)), ('1e20', lambda: mp.mpf(10) ** 20), ('-1e20', lambda: -mp.mpf(10) ** 20), ('1e-30', lambda: mp.mpf(10) ** -30),
+                      ('2^-(p+9)', lambda: mp.ldexp(1, -p - 9)), ('1e20j', lambda: mp.mpc(0, 10 ** 20)), ('3+2^(p+3)j', lambda: mp.mpc(3, mp.ldexp(1, p + 3))), ('-1e6', lambda: mp.mpf(-10 ** 6)), ('1e6+1e6j', lambda: mp.mpc(10 ** 6, 10 ** 6))]
+                for zname, zf in zs:
+                    mp.prec = p
+                    before = (mp.prec, mp.dps)
+                    acc.evals += 1; acc.nontrivial += 1
+                    try:
+                        with Quiet():
+                            core.with_timeout(5, f, *mk_args(zf()))
+                        out = 'ok'
+                    except core.TimeoutHit:
+                        acc.count('skipped_slow'); mp.prec = p; continue
+                    except BaseException as e:
+                        out = type(e).__name__
+                    after = (mp.prec, mp.dps)
+                    if after != before:
+                        acc.violation(['extreme', name, zname, p], 'mp.%s%s with z = %s from prec %d (%s): (prec, dps) %s -> %s' % (name, str(mk_args('z')).replace("'z'", 'z')[:40], zname, p, out, before, after),
+                                      kind='return', entry=name, ctx='mp', how='extreme-' + ('ok' if out == 'ok' else 'raise'))
+                    mp.prec = 53
+        acc.sample(['extreme', 'hyp1f1', '2^p', 53])
+    finally:
+        mp.prec = 53
     return acc
 
 
